@@ -35,9 +35,7 @@ def empty (fams : List Fam) : State := ⟨fams, [], [], [], [], 0⟩
 def store (s : State) (r : Nat) : Option J := (s.stores.find? (·.1 = r)).map (·.2)
 
 def setStore (s : State) (r : Nat) (d : J) : State :=
-  { s with stores := if s.stores.any (·.1 = r)
-      then s.stores.map (fun p => if p.1 = r then (r, d) else p)
-      else s.stores ++ [(r, d)] }
+  { s with stores := (r, d) :: s.stores.filter (·.1 ≠ r) }
 
 def delStore (s : State) (r : Nat) : State :=
   { s with stores := s.stores.filter (·.1 ≠ r) }
@@ -174,17 +172,23 @@ def overrideOrder (cur : List (Key × T)) (m : List (Key × J)) : List (Key × J
   (cur.filterMap (fun kv => (Tr.lookup kv.1 m).map (fun v => (kv.1, v))))
     ++ m.filter (fun kv => !Tr.hasKey kv.1 cur)
 
+/-- a plain `dict` method applied to the children of dict node `t = .dict i kvs` -/
+def dmutRes (t : T) (i : Nat) (kvs : List (Key × T)) (m : DictMut T) (n : Nat) : NodeRes :=
+  match dictMut kvs m with
+  | .error e => ⟨t, .unit, [], n, some e⟩
+  | .ok r => ⟨.dict i r.data, r.out, r.removed, n, none⟩
+
+/-- a plain `list` method applied to the children of list node `t = .list i xs` -/
+def lmutRes (t : T) (i : Nat) (xs : List T) (m : ListMut T) (n : Nat) : NodeRes :=
+  match listMut xs m with
+  | .error e => ⟨t, .unit, [], n, some e⟩
+  | .ok r => ⟨.list i r.data, r.out, r.removed, n, none⟩
+
 /-- run the body of `op` on the node `t` (after the load) -/
 def runBody (fam : Fam) (t : T) (op : Op) (n : Nat) : NodeRes :=
   let fail (e : Err) : NodeRes := ⟨t, .unit, [], n, some e⟩
-  let dmut (i : Nat) (kvs : List (Key × T)) (m : DictMut T) (n : Nat) : NodeRes :=
-    match dictMut kvs m with
-    | .error e => ⟨t, .unit, [], n, some e⟩
-    | .ok r => ⟨.dict i r.data, r.out, r.removed, n, none⟩
-  let lmut (i : Nat) (xs : List T) (m : ListMut T) (n : Nat) : NodeRes :=
-    match listMut xs m with
-    | .error e => ⟨t, .unit, [], n, some e⟩
-    | .ok r => ⟨.list i r.data, r.out, r.removed, n, none⟩
+  let dmut := dmutRes t
+  let lmut := lmutRes t
   match t, op with
   | .dict i kvs, .dSetitem k v => let r := fromBase v n; dmut i kvs (.setitem k r.1) r.2
   | .dict i kvs, .dDelitem k => dmut i kvs (.delitem k) n
@@ -258,35 +262,48 @@ def putNode (s : State) (h : Handle) (new : T) : State :=
     | none => s
   | .node id => replaceNode s id new
 
+/-- the load that precedes the body: skipped by root-level overwrites (clear / reset
+on the root) and by the one read that never touches the collection -/
+def loadFor (s : State) (oi : Nat) (isRoot : Bool) (op : Op) : State × Option Err :=
+  if (op.isOverwrite && isRoot) || op.skipsLoad then (s, none) else loadRoot s oi
+
+/-- install the result of the body -/
+def applyBody (s1 : State) (h : Handle) (oi : Nat) (r : NodeRes) : State :=
+  ((putNode s1 h r.node).own oi s1.next r.next).addDetached oi r.det
+
+/-- save (mutators only; also when the body raised), then return or raise -/
+def finishCall (s2 : State) (oi : Nat) (op : Op) (r : NodeRes) : State × CallOut :=
+  let s3 := if op.isRead then s2 else saveRoot s2 oi
+  match r.err with
+  | some e => (s3, .error e)
+  | none => (s3, .ok r.out)
+
+/-- the call once handle, owner object and target node are known -/
+def callOn (s : State) (h : Handle) (op : Op) (oi : Nat) (isRoot : Bool) (o : Obj) (t0 : T) :
+    State × CallOut :=
+  -- 1. validation before anything is touched
+  match preValidate (s.fam o) t0.isDict op with
+  | some e => (s, .error e)
+  | none =>
+    -- 2. load
+    let ls := loadFor s oi isRoot op
+    match ls.2 with
+    | some e => (ls.1, .error e)
+    | none =>
+      match handleNode ls.1 h with
+      | none => (ls.1, .error (.other "LostNode"))
+      | some t =>
+        -- 3. body, 4. save
+        let r := runBody (s.fam o) t op ls.1.next
+        finishCall (applyBody ls.1 h oi r) oi op r
+
 /-- One public call `h.op(...)`. -/
 def call (s : State) (h : Handle) (op : Op) : State × CallOut :=
   match handleOwner s h, handleNode s h with
   | some (oi, isRoot), some t0 =>
     match s.objs[oi]? with
     | none => (s, .error (.other "NoSuchObject"))
-    | some o =>
-      let fam := s.fam o
-      -- 1. validation before anything is touched
-      match preValidate fam t0.isDict op with
-      | some e => (s, .error e)
-      | none =>
-        -- 2. load (root-level overwrites skip it)
-        let (s1, lerr) :=
-          if (op.isOverwrite && isRoot) || op.skipsLoad then (s, none) else loadRoot s oi
-        match lerr with
-        | some e => (s1, .error e)
-        | none =>
-          match handleNode s1 h with
-          | none => (s1, .error (.other "LostNode"))
-          | some t =>
-            -- 3. body
-            let r := runBody fam t op s1.next
-            let s2 := ((putNode s1 h r.node).own oi s1.next r.next).addDetached oi r.det
-            -- 4. save (mutators only; also when the body raised)
-            let s3 := if op.isRead then s2 else saveRoot s2 oi
-            match r.err with
-            | some e => (s3, .error e)
-            | none => (s3, .ok r.out)
+    | some o => callOn s h op oi isRoot o t0
   | _, _ => (s, .error (.other "NoSuchHandle"))
 
 /-! ### other steps of a history -/
